@@ -7,6 +7,7 @@ import Asn1Model.Typing
 import Asn1Model.Oer
 import Asn1Model.OerTyping
 import Asn1Model.BerFraming
+import Asn1Model.Constraints
 /-
   Line protocol: one request per line `op<TAB>arg...`, args are S-expressions.
   One answer line per request.  Everything printed is canonical.
@@ -223,6 +224,18 @@ def opProbe (args : List Sx) : String :=
       | .indefinite => "indefinite"
       | .known n => s!"known {n}"
     | none => "bad-hex"
+  | _ => "bad-args"
+
+/-- `check <ty> <val>` : constraints checker model -/
+def opCheck (args : List Sx) : String :=
+  match args with
+  | [t, v] =>
+    match sxTy? t, sxVal? v with
+    | some ty, some val =>
+      (match Constraints.check ty val with
+       | none => "ok"
+       | some p => "err " ++ ".".intercalate p) ++ (if Constraints.admits ty val then " admits=T" else " admits=F")
+    | _, _ => "bad-args"
   | _ => "bad-args"
 
 def b2s (b : Bool) : String := if b then "T" else "F"
